@@ -36,3 +36,10 @@ Definition c06_oracle (c : case_t) : bool :=
 
 (* which runs exercise what (for the evidence) *)
 Definition has_unknown (c : case_t) : bool := match unknown_ids c with [] => false | _ => true end.
+
+(* the freshness clauses of the oracle are implied by the conclusion of C06_fresh_run (so a run of the
+   model always passes them; the oracle is the weaker, property-text reading) *)
+Definition C06_oracle_sound_stmt : Prop :=
+  forall (l : N) (ids : list N) (lcid' : N),
+    ids = N_seq (l + 1) (length ids) -> lcid' = l + N.of_nat (length ids) ->
+    increasing_from l ids = true /\ (last ids l <=? lcid') = true.
